@@ -385,6 +385,7 @@ type DlgSpec struct {
 	NonceLen int        `json:"nonce_len,omitempty"` // 0: generated
 	Meta     []MetaSpec `json:"meta,omitempty"`
 	UseRoot  bool       `json:"use_root,omitempty"` // constructed with delegation.Root
+	PolSpare bool       `json:"pol_spare,omitempty"` // policy assembled with append(policy.Construct(a...), policy.Construct(b...)...): slice with spare capacity
 }
 
 // InvSpec is the abstract record of one invocation.
